@@ -48,5 +48,10 @@ def ordered(portrefs: Iterable[PortRef]) -> List[PortRef]:
     """# Order a collection of `PortRef`s by instance and port name.
     Sets of `PortRef`s are hashed (in part) by memory address and string-hash,
     and hence iterate in orders which differ from one process to the next.
-    Everything whose result depends on that order goes through here instead."""
+    Everything whose result depends on that order goes through here instead.
+
+    References held by an instance which is in no module are left out.
+    Such an instance - e.g. the lone one which `n * inst` copied into an array -
+    keeps its own connections, but is part of no design."""
+    portrefs = [p for p in portrefs if p.inst._parent_module is not None]
     return sorted(portrefs, key=lambda p: (p.inst.name or "", p.portname))
